@@ -202,6 +202,70 @@ fn shape_scripts(n: usize) -> Vec<Vec<String>> {
     }
 }
 
+/// A chain of `n` assets, each looking up its predecessor (loaded bottom-up, so no load ever nests
+/// deeper than one level); the file of the first one is edited and notified, then `hot_reload`.
+/// The reload order must be computed with work and stack that do not grow with the depth of the
+/// recorded dependencies.  Runs in a child process: an overflow of the reloader's stack kills it.
+pub struct Link(pub i64);
+impl assets_manager::Compound for Link {
+    fn load(cache: assets_manager::AnyCache, id: &assets_manager::SharedString) -> Result<Self, assets_manager::BoxedError> {
+        use assets_manager::source::Source;
+        let txt = {
+            let src = cache.raw_source();
+            let raw = src.read(id, "c")?;
+            String::from_utf8(raw.as_ref().to_vec())?
+        };
+        let mut it = txt.split_whitespace();
+        let own: i64 = it.next().unwrap_or("0").parse()?;
+        let prev = match it.next() {
+            Some(p) => cache.get_cached::<Link>(p).map(|h| h.read().0).unwrap_or(-1),
+            None => 0,
+        };
+        Ok(Link(own + prev))
+    }
+}
+pub fn chain_child(n: usize, output: &str) {
+    let out: std::sync::Arc<std::sync::Mutex<Vec<String>>> = Default::default();
+    let o2 = out.clone();
+    let cfg = ds::Config { writer_pref: false, horizon: 50 * n + 10_000, record_ops: false };
+    let r = ds::run_one(&[], &cfg, move || {
+        let m = crate::mem::Mem::new(true);
+        m.0.no_points.store(true, std::sync::atomic::Ordering::SeqCst);
+        m.put("k0", "c", "1");
+        for i in 1..n {
+            m.put(&format!("k{i}"), "c", &format!("1 k{}", i - 1));
+        }
+        let c = assets_manager::AssetCache::with_source(m.clone());
+        ds::adopt(1, "reloader");
+        let mut last = 0;
+        for i in 0..n {
+            last = c.load::<Link>(&format!("k{i}")).map(|h| h.read().0).unwrap_or(-7);
+        }
+        ds::quiesce();
+        m.put("k0", "c", "5");
+        m.ev(assets_manager::source::OwnedDirEntry::File("k0".into(), "c".into()));
+        ds::quiesce();
+        c.hot_reload();
+        let top = c.get_cached::<Link>(&format!("k{}", n - 1)).map(|h| h.read().0).unwrap_or(-9);
+        o2.lock().unwrap().push(format!("loaded top={last} after reload top={top}"));
+    });
+    let mut res = SubResult::new("C08", "c08_shapes");
+    res.evaluations = 1;
+    res.states = r.steps as u64;
+    res.transitions = n as u64;
+    let log = out.lock().unwrap().clone();
+    res.outcome(&("chain", n, &log));
+    let replay = json!({"engine": "sysmc", "harness": "chain", "n": n});
+    if let Some((k, d)) = crate::util::verdict_violation(&r) {
+        res.violation(format!("c08_shapes:chain:{k}"), format!("chain of {n}: {d}"), replay.clone());
+    }
+    let want = format!("loaded top={} after reload top={}", n, n + 4);
+    if log.first() != Some(&want) && r.verdict == ds::Verdict::Ok && r.panicked.is_none() {
+        res.violation("c08_shapes:chain:c05:stale".to_string(), format!("chain of {n}: expected `{want}`, got {log:?}"), replay);
+    }
+    res.write(output);
+}
+
 pub fn hist_child(input: &str, output: &str) {
     let v: Value = serde_json::from_slice(&std::fs::read(input).expect("input")).expect("json");
     let cfg: crate::hr::HCfg = serde_json::from_value(v["cfg"].clone()).expect("cfg");
@@ -222,7 +286,7 @@ pub fn shapes(args: &Args) -> SubResult {
     for n in 1..=3 {
         all.extend(shape_scripts(n));
     }
-    res.bound = format!("all {} look-up graphs on 1..3 scripted assets (per ordered pair: none / get_cached look-up / (forward only) load), self-loops and cycles included, plus burst shapes and two-wide ladders of 6 and 40 levels; each loaded, then a leaf edit and a script touch are notified and hot_reload is called twice; one child process per shape", all.len());
+    res.bound = format!("all {} look-up graphs on 1..3 scripted assets (per ordered pair: none / get_cached look-up / (forward only) load), self-loops and cycles included, plus burst shapes, two-wide ladders of 6 and 40 levels and look-up chains of 2 000 / 20 000 (thorough 60 000) assets; each loaded, then a leaf edit and a script touch are notified and hot_reload is called twice; one child process per shape", all.len());
     res.rule = "exhaustive over shapes; each executed on the real crate under detsched in a child process; oracle = child exits normally (no stack overflow / abort), no deadlock, plus the C05/C06 pass oracles; distinct = distinct (canonical state, observations)".into();
     // burst shapes: one reload pass that loads many assets which are not cached yet (an index
     // whose list grew): the reloader registers each of them with itself while it is busy
@@ -234,6 +298,11 @@ pub fn shapes(args: &Args) -> SubResult {
     // (2^k paths through 2k assets): the reload ordering must be linear in the graph, not in its paths
     for k in [6usize, 40] {
         all.push(vec![format!("LADDER:{k}")]);
+    }
+    // chain shapes: n assets, each looking its predecessor up (loaded bottom-up): the depth of the
+    // recorded dependencies is not bounded, the stack of the reloader thread is
+    for n in if args.thorough() { vec![2000usize, 20000, 60000] } else { vec![2000usize, 20000] } {
+        all.push(vec![format!("CHAIN:{n}")]);
     }
     let total = all.len();
     let dir = std::env::temp_dir();
@@ -289,9 +358,16 @@ pub fn shapes(args: &Args) -> SubResult {
         }
         let inp = dir.join(format!("shape-{}-{idx}.in.json", std::process::id()));
         let outp = dir.join(format!("shape-{}-{idx}.out.json", std::process::id()));
-        std::fs::write(&inp, serde_json::to_vec(&json!({"cfg": cfg, "ops": ops})).unwrap()).unwrap();
-        let st = vcommon::child_status(&["--hist-child".into(), inp.display().to_string(), outp.display().to_string()], std::time::Duration::from_secs(60));
-        let replay = json!({"engine": "sysmc", "harness": "history", "params": {"cfg": cfg, "ops": ops}, "choices": []});
+        let chain: Option<usize> = scripts[0].strip_prefix("CHAIN:").and_then(|x| x.parse().ok());
+        let (st, replay) = if let Some(k) = chain {
+            (vcommon::child_status(&["--chain-child".into(), k.to_string(), outp.display().to_string()], std::time::Duration::from_secs(300)), json!({"engine": "sysmc", "harness": "chain", "n": k}))
+        } else {
+            std::fs::write(&inp, serde_json::to_vec(&json!({"cfg": cfg, "ops": ops})).unwrap()).unwrap();
+            (
+                vcommon::child_status(&["--hist-child".into(), inp.display().to_string(), outp.display().to_string()], std::time::Duration::from_secs(60)),
+                json!({"engine": "sysmc", "harness": "history", "params": {"cfg": cfg, "ops": ops}, "choices": []}),
+            )
+        };
         match st {
             Ok(s) if s.success() => {
                 let part: SubResult = serde_json::from_slice(&std::fs::read(&outp).unwrap()).unwrap();
